@@ -43,7 +43,13 @@ import (
 	ocispec "github.com/opencontainers/image-spec/specs-go/v1"
 )
 
-func main() { Main("c12", run) }
+func main() {
+	if spec := os.Getenv(concEnv); spec != "" {
+		concChild(spec) // the re-executed child of the concurrency family
+		return
+	}
+	Main("c12", run)
+}
 
 // ---------- concrete description of one lattice case (JSON = replay / corpus format) ----------
 
@@ -1342,6 +1348,21 @@ func run(a *Args) error {
 		}
 	}
 	genLattice(a, rng, emit, history)
+	// concurrency family: observed in a child process, sampled calls emitted as ordinary cases
+	runConcurrency(a, w, &id, func(my int64, c *lcase, obs string) {
+		if !w.Want(my) {
+			return
+		}
+		normalize(c)
+		c.Obs = obs
+		term := CApp("mk_case", CN(my), inputTerm(c), obs)
+		kb, _ := json.Marshal(c)
+		w.Add(my, term, c, string(kb), true)
+		w.Count("family", c.Fam)
+		w.Count("entry", c.Entry)
+		w.Count("observation", obsKind(obs))
+		w.Count("construction", construction(c))
+	})
 	w.Set("partial", "the theorems cover the nil-ability lattice of notation-go's own structures (configuration x level x entry point x what the dependencies answer); crash-freedom of the third-party decoders (notation-core-go JWS/COSE, encoding/json, fxamacker/cbor, crypto/x509, oras-go, tspclient-go) on arbitrary bytes is a runtime fact that is explored (exploration_* keys), not proved")
 	w.Set("part1", "nil-ability lattice: evaluated in Coq against C12_Model (model = implementation, and the oracle spec_ok on the implementation's observation)")
 	if err := explore(a, rng, w, id); err != nil {
